@@ -678,7 +678,7 @@ Proof.
   destruct (hi_1 _ _ _ H e He) as (c1 & A & B & Cn).
   pose proof (handle_in_use _ _ _ _ _ (io_inv _ _ _ (hi_io _ _ _ H)) B) as Hu. pose proof (in_use_lt _ _ Hu) as Hlt.
   rewrite A. simpl. repeat split; auto.
-  - apply Nat.ltb_lt. eapply nth_some_lt; eauto.
+  - rewrite B. rewrite andb_true_r. apply Nat.ltb_lt. eapply nth_some_lt; eauto.
   - unfold adf_resolve. destruct (Nat.ltb_spec (l_slot e) (length (tab (io_adf s)))); [|lia].
     destruct (Nat.eqb_spec (in_use (slot_at (io_adf s) (l_slot e))) 0); [contradiction|reflexivity].
 Qed.
@@ -702,25 +702,27 @@ Qed.
    changes (cgio_close_file, and cgio_get_node_id / cgio_get_label of a traversal) *)
 Theorem io_closed_handle_rejected : forall w fuel ops s live, hrun fuel w io_init [] ops = Some (s, live) ->
   forall c, ~ In c (map l_h live) ->
-    cgio_resolve s c = None /\
-    (exists r, cgio_close_file Cur fuel s c = Some (s, r) /\ (r = RBadCgio \/ r = RFileType)) /\
+    get_cgnsio s c = false /\ cgio_resolve s c = None /\
+    cgio_close_file Cur fuel s c = Some (s, RBadCgio) /\
     forall ch, cgio_walk Cur fuel w s c ch = Some (s, false).
 Proof.
   intros w fuel ops s live R c Hn. pose proof (hrun_HInv _ _ _ _ _ _ _ (HInv_init w) R) as H.
   assert (G : cgio_resolve s c = None).
   { destruct c as [|c1]; [reflexivity|]. simpl. destruct (nth c1 (iol s) None) as [idx|] eqn:E; auto. exfalso.
     destruct (hi_2 _ _ _ H _ _ E) as (n & Hin). apply Hn. apply in_map_iff. exists (S c1, idx, n). auto. }
-  split; auto. split.
-  - unfold cgio_close_file. destruct c as [|c1]; [eauto|]. simpl in G.
-    destruct (length (iol s) <=? c1); [eauto|]. rewrite G. eauto.
+  split; [|split; auto; split].
+  - destruct c as [|c1]; [reflexivity|]. simpl in *. rewrite G. apply andb_false_r.
+  - unfold cgio_close_file. destruct c as [|c1]; [reflexivity|]. simpl in G.
+    destruct (length (iol s) <=? c1); [reflexivity|]. rewrite G. reflexivity.
   - intros ch. unfold cgio_walk. destruct c as [|c1]; auto. simpl in G. rewrite G. reflexivity.
 Qed.
 
-(* ... but get_cgnsio itself tests the RANGE only: while another file keeps the table alive a closed number is accepted,
-   and cgio_get_file_type / cgio_get_root_id / cgio_release_id, which do not look at the slot's type, return status 0 *)
-Lemma io_closed_slot_accepted :
+(* the getter BEFORE /repo 137980e tested the RANGE only: while another file kept the table alive a closed number was
+   accepted, and cgio_get_file_type / cgio_get_root_id / cgio_release_id, which do not look at the slot's type, returned
+   status 0.  (The current getter refuses it: io_closed_handle_rejected.) *)
+Lemma io_closed_slot_accepted_old :
   exists s live, hrun 100 w1 io_init [] [OOpen 0 false; OOpen 1 false; OClose 2] = Some (s, live) /\
-                 ~ In 2 (map l_h live) /\ cgio_resolve s 2 = None /\ get_cgnsio s 2 = true /\ cgio_get_file_type_ok s 2 = true.
+                 ~ In 2 (map l_h live) /\ cgio_resolve s 2 = None /\ get_cgnsio_old s 2 = true /\ get_cgnsio s 2 = false.
 Proof.
   destruct (hrun 100 w1 io_init [] [OOpen 0 false; OOpen 1 false; OClose 2]) as [[s live]|] eqn:E; [|vm_compute in E; discriminate].
   vm_compute in E. inversion E; subst. clear E. eexists. eexists. split; [reflexivity|].
